@@ -208,6 +208,26 @@ fn check_long_hold(prog: usize, init: &[u8], start: u32, len: u32, act: u8) -> R
     let k = judge(prog, &o, &what, o.stale > 0, o.dropped > 0)?;
     Ok((o.steps, k))
 }
+/// Life cycle: the simulator ran `prior` steps of the same program, then `reset()` was called while another thread held a buffer lock (`hold`,
+/// see `build_reused_held`); the front end then queues the input of the next run, which must receive every byte once and in order.
+fn check_reset_under_hold(prog: usize, init: &[u8], prior: u32, hold: u8) -> Result<(usize, Vec<&'static str>), (String, String)> {
+    let total = if prog == 3 { 3 } else { init.len() };
+    let (m, buf) = machine(prog, init, total);
+    let mut p = build_reused_held(&m, &m, prior, hold).map_err(|e| (format!("panic:{}", panic_site(&e)), format!("setting up a reused simulator: {e}")))?;
+    let what = format!("program {prog} input {init:x?} on a simulator that ran {prior} steps and was reset() while another thread held {}", ["no lock", "the keyboard lock", "the display lock", "the keyboard lock as a reader", "the display lock as a reader", "both locks"][hold as usize]);
+    let mut halted = false; let mut steps = 0usize;
+    for k in 0..HORIZON {
+        let info = step_compare(&mut p, false).map_err(|(s, d)| (s, format!("{what}: step {k}: {d}")))?;
+        steps += 1;
+        match info.outcome { Outcome::Halt => { halted = true; break; } Outcome::Err(e) => return Err(("program-faults".into(), format!("{what}: {e:?}"))), _ => {} }
+    }
+    let received: Vec<u8> = (0..total.min(8)).map(|i| p.sim.mem[buf + i as u16].get() as u8).collect();
+    let shown: Vec<u8> = p.disp.get_buffer().read().unwrap_or_else(|e| e.into_inner()).iter().copied().collect();
+    let o = Obs { output_expected: expected_output(prog, &received), received, shown, sent: init.to_vec(), steps, halted, stale: 0, dropped: 0, unwaited: (0, 0) };
+    if !o.halted { return Err(("program-starved".into(), format!("{what}: the program did not finish (received {:x?} of {:x?})", o.received, o.sent))); }
+    let k = judge(prog, &o, &what, false, false)?;
+    Ok((o.steps, k))
+}
 const LONG_HOLDS: [u32; 5] = [300, 32768, 65535, 70000, 140000];
 
 // ---------------------------------------------------------------- enumeration
@@ -276,6 +296,14 @@ pub fn run(ctx: &Ctx) -> Report {
         record(acc, check_long_hold(prog, &init, start, len, act), format!("L:{prog}:{}:{start}/{len}/{act}", hex(&init)));
     });
     rep.absorb(r);
+    // life cycle: reset() called while a lock is held, then the next run's input queued: every program x input x lock x 6 lengths of prior use
+    let r = sweep(ctx, 4 * 4 * 5 * 6, 1, |i, acc| {
+        let (prog, init, hold, prior) = ((i / 120) as usize, inputs()[(i / 30 % 4) as usize].clone(), (i / 6 % 5) as u8 + 1, [0u32, 1, 5, 20, 60, 400][(i % 6) as usize]);
+        if (prog == 3) != init.is_empty() { return; }
+        acc.evals += 1; acc.traces += 1; acc.nontrivial += 1; acc.count("resets_under_a_held_lock", 1);
+        record(acc, check_reset_under_hold(prog, &init, prior, hold), format!("R:{prog}:{}:{prior}/{hold}", hex(&init)));
+    });
+    rep.absorb(r);
     // attempt mode
     if ctx.thorough() {
         for &prog in &progs { for init in inputs() {
@@ -310,6 +338,10 @@ pub fn replay(case: &str) -> Option<String> {
         "L" => {
             let q: Vec<u32> = p.get(3)?.split('/').filter_map(|x| x.parse().ok()).collect();
             match check_long_hold(prog, &init, *q.first()?, *q.get(1)?, *q.get(2)? as u8) { Ok((_, k)) => if k.is_empty() { None } else { Some(format!("known finding(s) exhibited: {k:?}")) }, Err((s, d)) => Some(format!("[{s}] {d}")) }
+        }
+        "R" => {
+            let q: Vec<u32> = p.get(3)?.split('/').filter_map(|x| x.parse().ok()).collect();
+            match check_reset_under_hold(prog, &init, *q.first()?, *q.get(1)? as u8) { Ok((_, k)) => if k.is_empty() { None } else { Some(format!("known finding(s) exhibited: {k:?}")) }, Err((s, d)) => Some(format!("[{s}] {d}")) }
         }
         "b" => {
             let sched: Sched = p.get(3)?.split(';').filter(|x| !x.is_empty()).filter_map(|x| { let (a, b) = x.split_once('/')?; Some((a.parse().ok()?, b.parse().ok()?)) }).collect();
